@@ -1200,7 +1200,9 @@ func (c *Ctx) checkValidatorInitialised() {
 			if !ok {
 				continue
 			}
-			isV := func(v ssa.Value) bool { return core.Derives(v, func(x ssa.Value) bool { return x == ssa.Value(gcall) }, false) }
+			isV := func(v ssa.Value) bool {
+				return core.Derives(v, func(x ssa.Value) bool { return x == ssa.Value(gcall) }, false)
+			}
 			core.AllInstrs(fn, func(in ssa.Instruction) {
 				call, ok := in.(*ssa.Call)
 				if !ok || !call.Call.IsInvoke() || !isV(call.Call.Value) {
